@@ -366,13 +366,18 @@ def body(draw, pl):
     defs = []
     grads = [g for g in pl["grads"] if draw(st.integers(0, 11)) > 0]
     defs += grads
-    for c in range(draw(st.sampled_from([0, 0, 0, 1, 2]))):
+    for c in range(draw(st.sampled_from([0, 0, 1, 1, 2]))):
         cid = f"c{c}"
         kids = ""
         for _ in range(draw(st.integers(1, 2))):
             tag, geom = draw(st.sampled_from(pl["prims"]))
+            if draw(st.integers(0, 2)) == 0:
+                # a clip child whose region depends on the clip rule in force (nested contours of the same direction)
+                tag, geom = "path", [("d", draw(st.sampled_from(["M0 0 L100 0 L100 100 L0 100 Z M25 25 L75 25 L75 75 L25 75 Z", "M2 2h40v40h-40z M12 12h40v40h-40z"])))]
             kids += f"<{tag}{attrs_to_str(geom)}/>"
         ca = [("id", cid)]
+        if draw(st.integers(0, 2)) == 0:
+            ca.append(("clip-rule", draw(st.sampled_from(["evenodd", "evenodd", "nonzero"]))))
         if draw(st.integers(0, 5)) == 0:
             ca.append(("transform", draw(st.sampled_from(pl["transforms"]))))
         defs.append(f"<clipPath{attrs_to_str(ca)}>{kids}</clipPath>")
